@@ -35,6 +35,19 @@ const (
 	aClose
 )
 
+// listingRules: what the simulated kernel holds at the k-th listing.
+func listingRules(k int) [][]byte {
+	var out [][]byte
+	n := 1 + k%3
+	if k == 1 {
+		n = 3
+	}
+	for i := 0; i < n; i++ {
+		out = append(out, bytes.Repeat([]byte{byte(0x40 + 16*k + i)}, 48+8*((k+i)%3)))
+	}
+	return out
+}
+
 func isPIDClear(s *ksim.Sent) bool {
 	return s.Type == ksim.AuditSet && len(s.Data) >= 16 && binary.LittleEndian.Uint32(s.Data[0:]) == 4 && binary.LittleEndian.Uint32(s.Data[12:]) == 0
 }
@@ -51,6 +64,7 @@ func execC17(hist []int, env *envdfs.Env) (viol []Viol, log string, ops int64, w
 		viol = append(viol, Viol{Sig: sig, What: fmt.Sprintf(format, a...) + " | history " + histNames(hist, c17Names) + " | kernel log: " + strings.Join(sim.Log, " "),
 			Replay: map[string]interface{}{"Kind": "c17", "History": hist, "Env": append([]int{}, env.Taken...)}})
 	}
+	nList := 0
 	var pending []*ksim.Sent // model of unconsumed NoWait requests, in order
 	usedPID := false
 	closed := false
@@ -165,13 +179,16 @@ func execC17(hist []int, env *envdfs.Env) (viol []Viol, log string, ops int64, w
 			usedPID = true
 		case aGetRules:
 			var rules [][]byte
+			// every listing returns different rules (other contents, other lengths, other count)
+			nList++
+			sim.Rules = listingRules(nList)
 			rules, err = c.GetRules()
 			if err == nil {
 				h := held{got: rules}
 				for _, r := range rules {
 					h.snap = append(h.snap, append([]byte{}, r...))
 				}
-				if !sameRules(rules, simRules(2)) {
+				if !sameRules(rules, listingRules(nList)) {
 					fail("C17 getrules-wrong", "GetRules returned %x", rules)
 				}
 				helds = append(helds, h)
